@@ -97,9 +97,9 @@ class RuntimeV2_x(Runtime):
                 line for line in flow_content.split("\n") if line.startswith("flow ")
             ]
             if not flow_definition_lines:
-                raise ColangRuntimeError(
-                    "The generated Colang code contains no flow definition!"
-                ) from e
+                # (the callers handle the case that no flow was added)
+                log.warning("The generated Colang code contains no flow definition!")
+                return []
             flow_name = flow_definition_lines[0].split(" ", maxsplit=1)[1]
             fixed_body = (
                 f"flow {flow_name}\n"
@@ -107,12 +107,17 @@ class RuntimeV2_x(Runtime):
             )
             log.warning("Using the following flow instead:\n%s", fixed_body)
 
-            parsed_flow = parse_colang_file(
-                filename="",
-                content=fixed_body,
-                version="2.x",
-                include_source_mapping=True,
-            )
+            try:
+                parsed_flow = parse_colang_file(
+                    filename="",
+                    content=fixed_body,
+                    version="2.x",
+                    include_source_mapping=True,
+                )
+            except Exception:
+                # (also the name of the generated flow can be what does not parse)
+                log.warning("Failed parsing the replacement flow, no flow is added")
+                return []
 
         added_flows: List[str] = []
         for flow in parsed_flow["flows"]:
